@@ -1,6 +1,6 @@
 (* C13 — statements only.  Each closed by [exact] of a lemma from the proof files. *)
 From Coq Require Import ZArith List Bool Reals Permutation.
-From TFV Require Import Comb.LS Comb.LS_proofs Comb.LSRank Comb.LSRank_proofs Comb.LSRank_final.
+From TFV Require Import Comb.LS Comb.LS_proofs Comb.LS_mono Comb.LSRank Comb.LSRank_proofs Comb.LSRank_final.
 Import ListNotations.
 Open Scope Z_scope.
 
@@ -93,6 +93,52 @@ Proof. exact user_ls_old_refuted. Qed.
 Theorem C13_gram_dominant_injective : forall M n, rows_wf M n -> gram_dominant M n -> injective_on M n.
 Proof. exact gram_dominant_injective. Qed.
 Print Assumptions C13_gram_dominant_injective.
+
+(* relations BETWEEN enumerations, all spins (unbounded): switching parity conservation off never removes a
+   coupling; the parity-violating list is exactly the union of the two parity-conserving lists, which are disjoint;
+   a C-parity requirement only removes couplings and the two C-parity selections partition the integer-s couplings;
+   unknown parity of any particle means the parity-violating list whatever p_break says; l is a non-negative integer
+   not above ja+jb+jc. *)
+Theorem C13_break_superset : forall ja2 jb2 jc2 pa pb pc p_break ca p,
+  In p (ls_list ja2 jb2 jc2 pa pb pc p_break ca) -> In p (ls_list ja2 jb2 jc2 pa pb pc true ca).
+Proof. exact ls_break_superset. Qed.
+Print Assumptions C13_break_superset.
+Theorem C13_break_is_union_of_parities : forall ja2 jb2 jc2 ca l s2 dl0,
+  In (l, s2) (ls_list_core ja2 jb2 jc2 true dl0 ca) <->
+  In (l, s2) (ls_list_core ja2 jb2 jc2 false 0 ca) \/ In (l, s2) (ls_list_core ja2 jb2 jc2 false 1 ca).
+Proof. exact ls_core_break_union. Qed.
+Print Assumptions C13_break_is_union_of_parities.
+Theorem C13_parities_disjoint : forall ja2 jb2 jc2 ca ca' p,
+  In p (ls_list_core ja2 jb2 jc2 false 0 ca) -> In p (ls_list_core ja2 jb2 jc2 false 1 ca') -> False.
+Proof. exact ls_core_parity_disjoint. Qed.
+Print Assumptions C13_parities_disjoint.
+Theorem C13_ca_subset : forall ja2 jb2 jc2 pbrk dl ca p,
+  In p (ls_list_core ja2 jb2 jc2 pbrk dl ca) -> In p (ls_list_core ja2 jb2 jc2 pbrk dl None).
+Proof. exact ls_core_ca_subset. Qed.
+Print Assumptions C13_ca_subset.
+Theorem C13_ca_partition : forall ja2 jb2 jc2 pbrk dl l s2, s2 mod 2 = 0 ->
+  (In (l, s2) (ls_list_core ja2 jb2 jc2 pbrk dl None) <->
+   In (l, s2) (ls_list_core ja2 jb2 jc2 pbrk dl (Some 1)) \/ In (l, s2) (ls_list_core ja2 jb2 jc2 pbrk dl (Some (-1)))).
+Proof. exact ls_core_ca_union. Qed.
+Print Assumptions C13_ca_partition.
+Theorem C13_ca_disjoint : forall ja2 jb2 jc2 pbrk dl pbrk' dl' p,
+  In p (ls_list_core ja2 jb2 jc2 pbrk dl (Some 1)) -> In p (ls_list_core ja2 jb2 jc2 pbrk' dl' (Some (-1))) -> False.
+Proof. exact ls_core_ca_disjoint. Qed.
+Print Assumptions C13_ca_disjoint.
+Theorem C13_unknown_parity_is_break : forall ja2 jb2 jc2 pa pb pc brk ca,
+  (pa = None \/ pb = None \/ pc = None) ->
+  ls_list ja2 jb2 jc2 pa pb pc brk ca = ls_list ja2 jb2 jc2 pa pb pc true ca.
+Proof. exact ls_unknown_parity_is_break. Qed.
+Print Assumptions C13_unknown_parity_is_break.
+Theorem C13_l_range : forall ja2 jb2 jc2 pbrk dl ca l s2,
+  In (l, s2) (ls_list_core ja2 jb2 jc2 pbrk dl ca) -> 0 <= l /\ 2 * l <= ja2 + jb2 + jc2.
+Proof. exact ls_core_l_range. Qed.
+Print Assumptions C13_l_range.
+(* non-vacuity: 1 -> 1 1 parity violating offers 7 couplings, 3 of them with even l and 4 with odd l *)
+Example C13_example_union :
+  (length (ls_list_core 2 2 2 true 0 None), length (ls_list_core 2 2 2 false 0 None), length (ls_list_core 2 2 2 false 1 None))
+  = (7%nat, 3%nat, 4%nat).
+Proof. vm_compute. reflexivity. Qed.
 
 (* non-vacuity: 1- -> 1- 0- has the single P-wave; 1/2+ -> 1/2+ 0- parity violating has S and P *)
 Example C13_example_1 : ls_list 2 2 0 (Some (-1)) (Some (-1)) (Some (-1)) false None = [(1, 2)].
